@@ -130,10 +130,10 @@ _JIT_TB = ['Kani 0.68 + CBMC 6.11 (SAT back end)', 'kani/src/x86.rs: x86-64 sema
            'reference = the real decoder + interpreter (pinned to the SM83 spec by C05/C06)', 'recording-bus stub for memory_read_byte/memory_write_byte',
            'the repository files are compiled unmodified via #[path] includes (no extraction)']
 PROPS['C01'] = {
-    'level': 'proof', 'kani': ['jit'], 'trusted_base': _JIT_TB, 'design_ref': 'DESIGN.md 5.1',
+    'level': 'proof', 'kani': ['jit'], 'verus': ['codecache'], 'trusted_base': _JIT_TB, 'design_ref': 'DESIGN.md 5.1',
     'technique': 'Kani/CBMC per-opcode translation validation: bytes of the real Emitter::encode_op == derived template (all immediates), template executed under an x86-64 model == real interpreter (all guest/host states)',
     'level_text': 'For each defined encoding (thorough: all 500; quick: a stratified subset incl. every block terminator and every helper-call shape) CBMC proves for every guest register/flag/immediate/bus value and every unspecified host register and flag: (a) the real encode_op emits exactly the template derived natively from it, (b) that template, run under the x86-64 model with helper calls havocking the SysV caller-saved state, leaves AF/BC/DE/HL/SP/PC and the status code exactly as decoder::decode + interpreter::run_op do, performs the same bus writes with the same values in the same order, calls helpers with the MemoryAreas pointer, keeps rsp/rbp and the host stack balanced and leaves only by falling off its end.',
-    'level_note': 'Per-instruction contract; multi-instruction blocks follow by sequential composition of self-contained templates (argument in DESIGN.md 5.1, not mechanised); prologue/epilogue and the block loop of translate_code_block are not yet under contract. A model fault or template mismatch is reported as undecided, never as a violation.',
+    'level_note': 'Per-instruction contract; multi-instruction blocks follow by sequential composition of self-contained templates (argument in DESIGN.md 5.1, not mechanised); the prologue / block epilogue / epilogue function are covered by the harness j_frame; the block loop of translate_code_block (which guest bytes a block covers, where it is filed) is covered by the Verus unit codecache. A model fault or template mismatch is reported as undecided, never as a violation.',
     'assumptions': ['x86 model is trusted (self-tested against the host CPU by the replay binary where available)'],
 }
 PROPS['C02'] = {
@@ -155,10 +155,10 @@ PROPS['C03'] = {
     'assumptions': ['executable memory is append-only: earlier translations stay valid when new code is emitted (part of the assumed translate_code_block contract)'],
 }
 PROPS['C04'] = {
-    'level': 'proof', 'verus': ['core_step', 'codecache'], 'trusted_base': _CC_TB, 'design_ref': 'DESIGN.md 5.4',
+    'level': 'proof', 'verus': ['core_step', 'codecache'], 'kani': ['jit'], 'also_counts': ['C01', 'C02'], 'trusted_base': _CC_TB, 'design_ref': 'DESIGN.md 5.4',
     'technique': 'Core::run_code_block extracted twice (cfg jit on / off, rule R4) and proved against the SAME relational postcondition block_post over interp_block, catch-up and irq_post',
     'level_text': 'Both build variants of Core::run_code_block are proved to satisfy block_post(old, new): registers/memory = the interpreter\'s block effect, IME/run-state from the status class, last_block_cycle_length, device catch-up of exactly 4 x block cycles, then interrupt dispatch. In the jit variant this needs: can_dynarec(ip) <=> ip < 0x8000 (RAM code is interpreted), fresh tags, a cache hit or fresh translation being a translation of the currently mapped bytes (C03), and the assumed contract of CodeCache::call (= C01 + C02). Equal states stepped by either variant therefore satisfy the same relation, step after step.',
-    'level_note': 'Proof modulo C01-C03 as stated; device state hidden behind MemoryAreas::run_clock_cycles is a deterministic function of (state, cycles) only up to the contracts used (timer, LCD schedule, DMA); serial output is C18.',
+    'level_note': 'The assumed contract of CodeCache::call is what C01/C02 establish, so this check also runs the C01/C02 Kani obligations (per-encoding harnesses and j_frame; shared cache) and counts their failures as its own; device state hidden behind MemoryAreas::run_clock_cycles is a deterministic function of (state, cycles) only up to the contracts used (timer, LCD schedule, DMA); serial output is C18.',
     'assumptions': ['interpreter::run_code_block / CodeCache::call: at most 0x30005 machine cycles per block (no u32 overflow of Registers.cycles)'],
 }
 
@@ -189,11 +189,11 @@ PROPS['C20'] = {
 PROPS['C15'] = {
     'level': 'proof', 'kani': ['misc:leaf'], 'verus': ['video_timing', 'video_leaf'], 'design_ref': 'DESIGN.md 5.15',
     'trusted_base': ['Kani 0.68 + CBMC 6.11', 'Verus (palette setters in video_regs.vinc)'],
-    'technique': 'leaf contracts only: Kani full-domain harness for tile::interleave; Verus contracts for tile-data addressing (both LCDC.4 modes), map addressing with scroll wrap, window line, object row fetch with x-flip (bit reversal), palette tables',
-    'level_text': 'Leaf obligations only: tile::interleave(lo, hi) places pixel k\'s colour bits at bits 15-2k / 14-2k for all 2^16 inputs (CBMC, complete); Verus (all inputs): get_tile_address = unsigned addressing from 0x8000 / signed around 0x9000 for all 256 indices, get_bg_tile / get_window_tile read the configured map at row*32+column, cache_next_tile_row fetches map row ((LY+SCY) mod 256)/8, tile row (LY+SCY) mod 8 and wraps the column modulo 32, cache_next_window_tile_row uses (LY-WY) mod 256, get_object_row uses unsigned addressing and reverses the bits of both planes on x-flip, set_bgp / set_obj_palette fill the shade tables. The composition of a frame (pixel pipeline across a line, window switch, object selection / priority / mixing) is NOT proved.',
-    'level_note': 'The mode-3 pixel pipeline, find_current_line_sprites and the window logic need inductive invariants over nested loops that were out of budget; no bounded stand-in was built either. Treat this claim as partial.',
+    'technique': 'Verus contracts on the real rendering functions: full functional contract of find_current_line_sprites (object layer of a line against a declarative selection/priority spec), leaf contracts for tile/map addressing, row fetch and palettes; Kani full-domain harness for tile::interleave',
+    'level_text': 'Object layer (Verus, all OAM/VRAM contents, all lines, both object sizes): after find_current_line_sprites the 176-entry object line cache holds at every index the opaque pixel of the lowest-X-then-lowest-OAM-index object among the first ten OAM entries covering the line (0 where there is none), with y-flip, x-flip, 8x16 tile pairing (bit 0 of the index ignored), palette and BG-over-OBJ bit encoded; objects at X >= 168 draw nothing; nothing else of the video state changes. Leaves (Verus, all inputs): get_tile_address = unsigned addressing from 0x8000 / signed around 0x9000 for all 256 indices, get_bg_tile / get_window_tile read the configured map at row*32+column, cache_next_tile_row fetches map row ((LY+SCY) mod 256)/8, tile row (LY+SCY) mod 8 and wraps the column modulo 32, cache_next_window_tile_row uses (LY-WY) mod 256, get_object_row uses unsigned addressing and reverses both planes on x-flip, set_bgp / set_obj_palette fill the shade tables; tile::interleave(lo, hi) places pixel k\'s colour bits at bits 15-2k / 14-2k for all 2^16 inputs (CBMC, complete).',
+    'level_note': 'The mode-3 pixel pipeline (BG/window fetch across a line, window switch, object mixing into the frame buffer) is not yet under a functional contract; a change there is not seen by this check.',
     'assumptions': [],
 }
 
-HOOK_COMMITS = ['e7167ea', '094daf3', 'ddd33be']
+HOOK_COMMITS = ['e7167ea', '094daf3', 'ddd33be', 'b06d137']
 NOT_APPLICABLE = {}
